@@ -370,6 +370,10 @@ class Verifier:
         b = builtins_model.lookup(self, name)
         if b is not None:
             return b
+        if name in self.get_module_classes():
+            # a class of (or imported into) the module under verification that no contract says anything about: an
+            # opaque class of that name (isinstance on object families is an uninterpreted predicate per class name)
+            return MCls(name)
         raise Unsupported('unknown name %s' % name)
 
     def wrap_name(self, name, v):
@@ -387,6 +391,20 @@ class Verifier:
     def check_bound(self, st, mu, node, name='?'):
         self.may_raise(st, mu.cond, 'UnboundLocalError', 'local %s may be unbound' % name, node)
         return mu.val
+
+    def get_module_classes(self):
+        if getattr(self, 'module_classes', None) is None:
+            mc = set()
+            for s in self.module.body:
+                if isinstance(s, ast.ClassDef):
+                    mc.add(s.name)
+                elif isinstance(s, ast.ImportFrom):
+                    for a in s.names:
+                        nm = a.asname or a.name
+                        if nm[:1].isupper() and not nm.isupper():
+                            mc.add(nm)
+            self.module_classes = mc
+        return self.module_classes
 
     def get_module_consts(self):
         """module-level simple constants and def's of the file under verification"""
@@ -406,15 +424,6 @@ class Verifier:
             elif isinstance(s, ast.FunctionDef):
                 if s.name in self.c.inline:
                     mc[s.name] = MFn('inline', s.name, node=s, frame=None)
-            elif isinstance(s, ast.ClassDef):
-                # a class of the module under verification: an opaque class of that name (isinstance on object
-                # families is an uninterpreted predicate per class name unless a family axiom says more)
-                mc.setdefault(s.name, MCls(s.name))
-            elif isinstance(s, ast.ImportFrom):
-                for a in s.names:
-                    nm = a.asname or a.name
-                    if nm[:1].isupper() and not nm.isupper():
-                        mc.setdefault(nm, MCls(nm))
         self.module_consts = mc
         return mc
 
